@@ -1514,8 +1514,31 @@ func (v *LVal) equalNum(other *LVal) *LVal {
 // *macroExpansionContext, which describes the macro CALL rather than the node
 // -- see macroExpansionInfo.Copy.
 func (v *LVal) Copy() *LVal {
+	return v.copyAt(nil)
+}
+
+// copyMemo maps each original node that has been entered to the copy made for
+// it.  Without it Copy recurses forever on a list that contains itself (a list
+// view of a vector's storage written back into that vector) until the
+// goroutine stack overflows -- a fatal error recover() cannot catch -- and
+// walks a value with shared sub-lists once per PATH, which is exponential.
+// With it every node is copied once and the copy has the original's shape,
+// cycles and sharing included.  The map is only allocated for a value that
+// has a nested list somewhere, so flat lists and atoms pay nothing.
+type copyMemo map[*LVal]*LVal
+
+func copyDescends(v *LVal) bool {
+	return v != nil && len(v.Cells) > 0 && v.Type != LArray && v.Type != LSortMap
+}
+
+func (v *LVal) copyAt(memo copyMemo) *LVal {
 	if v == nil {
 		return nil
+	}
+	if memo != nil {
+		if done, ok := memo[v]; ok {
+			return done
+		}
 	}
 	cp := &LVal{}
 	*cp = *v // shallow copy of all fields including Map and Bytes
@@ -1590,7 +1613,18 @@ func (v *LVal) Copy() *LVal {
 		}
 		cp.Native = mdata
 	default:
-		cp.Cells = v.copyCells()
+		if memo == nil {
+			for _, c := range v.Cells {
+				if copyDescends(c) {
+					memo = make(copyMemo)
+					break
+				}
+			}
+		}
+		if memo != nil {
+			memo[v] = cp
+		}
+		cp.Cells = v.copyCells(memo)
 	}
 	return cp
 }
@@ -1610,13 +1644,13 @@ func (v *LVal) copyMapData() (*MapData, error) {
 	return m, nil
 }
 
-func (v *LVal) copyCells() []*LVal {
+func (v *LVal) copyCells(memo copyMemo) []*LVal {
 	if len(v.Cells) == 0 {
 		return nil
 	}
 	cells := make([]*LVal, len(v.Cells))
 	for i := range cells {
-		cells[i] = v.Cells[i].Copy()
+		cells[i] = v.Cells[i].copyAt(memo)
 	}
 	return cells
 }
